@@ -58,8 +58,8 @@ def c04_cell(acc, rng, idx):
                 'need_author_approval': need_author,
                 'project_leaders': [LEAD, AUTHOR] if author_leader
                 else [LEAD]}
-    if author_bypass:
-        settings['pr_author_options'] = {AUTHOR: author_bypass}
+    settings['pr_author_options'] = {PEER2: list(c04.BYPASSES),
+                                     AUTHOR: author_bypass}
     world = World(layout=rng.choice(['d1', 'd2']),
                   queue_mode=rng.choice(['queue', 'noqueue']),
                   seed=rng.getrandbits(30), settings=settings,
@@ -276,6 +276,42 @@ def c11_cell(acc, rng, idx):
                     'case %s (%s -> %s, issue %s %s %s): %s, w/ %s'
                     % (case, src, dst, key, typ, versions, st, mine), wit)
             acc.count('c11w_admissions_checked')
+            # the ticket stops fitting AFTER the integration branches exist:
+            # every later event (PR event, build report on the source tip or
+            # on a w/ tip) must be refused again and change nothing
+            if case in ('ok', 'suffixed-extra', 'lower-case-key') and \
+                    not blocked and FakeJira.issues.get(key):
+                how = rng.choice(['retype', 'versions'])
+                if how == 'retype':
+                    FakeJira.issues[key] = ('Epic', versions)
+                    expect2 = 'IssueTypeNotSupported'
+                else:
+                    FakeJira.issues[key] = (typ, ['7.7.7'])
+                    expect2 = 'IncorrectFixVersion'
+                events = [('pr', pid), ('commit', 'tip:' + src)] + \
+                    [('commit', 'tip:' + n) for n in sorted(mine)]
+                for ev in events:
+                    green_all(w, src)
+                    before = w.refs()[0]
+                    rec2 = w.run(*ev)
+                    acc.evals += 1
+                    acc.count('c11w_later_events_checked')
+                    acc.nontrivial('w|later|%s|%s|%s' % (how, ev[0],
+                                                         'w' if 'tip:w/' in
+                                                         str(ev[1]) else 'x'))
+                    after = w.refs()[0]
+                    moved = sorted(n for n in set(before) | set(after)
+                                   if before.get(n) != after.get(n))
+                    if rec2['status'] != expect2 or moved:
+                        acc.violation(
+                            'system-level:later-event-passes-ticket-gate',
+                            'ticket %s changed (%s) after integration '
+                            'branches existed; %s(%s) -> %s, refs changed '
+                            '%s; expected %s and nothing changed' % (
+                                key, how, ev[0], ev[1], rec2['status'],
+                                moved, expect2),
+                            dict(wit, later=[how, list(ev)]))
+                        break
             if len(acc.samples) < 8 and idx % 7 == 0:
                 acc.sample({'system_level': True, 'case': case,
                             'source': src, 'destination': dst,
